@@ -289,7 +289,7 @@ fn is_model_blank(c: char) -> bool {
 /// Why the case is outside the domain, if it is.
 fn outside(p: &Parsed, text: &str, table: &[AliasDef]) -> Option<&'static str> {
     let all: String = table.iter().map(|a| a.value.clone() + " ").collect::<String>() + text;
-    if all.chars().any(|c| matches!(c, '$' | '`' | '#' | '~')) {
+    if all.chars().any(|c| matches!(c, '$' | '`' | '~')) {
         return Some("lexical");
     }
     let buf: String = p.buffer.iter().map(|x| x.0).collect();
@@ -512,7 +512,7 @@ fn alias_value(r: &mut Rng, names: &[&str]) -> String {
         29 | 30 => format!("{} {}{}", atom(r, names), pick_s(r, &[">", "<", ">>"]), pick_s(r, &["f", " g"])) + &tail(r),
         31 => format!(" {}", atom(r, names)) + &tail(r),
         32 => format!("{}\n{}", atom(r, names), atom(r, names)) + &tail(r),
-        _ => pick_s(r, &["v=1", "v=1 ", "v=a ", "2", "x;", "x|", "'x y' ", "a\\ b ", "v=", "for c in", "case a in", "a) "]),
+        _ => pick_s(r, &["v=1", "v=1 ", "v=a ", "2", "x;", "x|", "'x y' ", "a\\ b ", "v=", "for c in", "case a in", "a) ", "x # c", "# c ", "#", "x #", "x#b ", "b #c\nc"]),
     }
 }
 
@@ -646,6 +646,9 @@ fn random_text(r: &mut Rng, names: &[&str]) -> String {
         s.push_str(&list(r, names, d));
         if r.chance(1, 10) {
             s.push_str(" &");
+        }
+        if r.chance(1, 12) {
+            s.push_str(r.pick(&[" # a b", "\t#a", " #", " # c \\"]));
         }
         s.push('\n');
     }
@@ -869,6 +872,77 @@ fn nested_stream(w: &mut CasesWriter) {
     }
 }
 
+// ---------------------------------------------------------------------------
+// alias definitions that change while a multi-line replacement is pending: the
+// value of `m` has several command lines; after the first one has been executed
+// the rest is still in the lexer's buffer (it is not flushed while input is
+// pending) and is parsed line by line with the aliases as they are *then*
+// (`unalias`, `unalias -a`, `alias` redefinitions executed by earlier lines of
+// the same value).  Oracle: the same script with `m` replaced by hand by its
+// value (the lines then come from the script itself), and for some templates a
+// literal expected trace.
+
+fn emit_pending(w: &mut CasesWriter, value: &str, tail: &str, expected: Option<&str>) {
+    let prelude = "alias b='z '\nalias c=w\n";
+    let after = "b c\nc\n";
+    let script = format!("{prelude}alias m={}\nm{tail}\n{after}", quote_sh(value));
+    let by_hand = format!("{prelude}{value}{tail}\n{after}");
+    let observed = run_vsh(vec![], script.clone());
+    let hand = run_vsh(vec![], by_hand.clone());
+    let expected = expected.map(|e| e.to_string()).unwrap_or_else(|| hand.clone());
+    let table_coq = format!("[({}, {}, false)]", coq::s("m"), coq::s(value));
+    let term = format!(
+        "({}, {}, ({}, {}, {}, ({}, {}), ({}, {})))",
+        table_coq,
+        coq::s(&script),
+        coq::n(10),
+        coq::nat(0),
+        "(@nil (list nat * str))",
+        coq::s(&observed),
+        coq::s(&expected),
+        coq::s(&observed),
+        coq::s(&hand)
+    );
+    let json = format!(
+        "{{\"origin\":\"pending\",\"script\":{},\"by_hand\":{},\"observed\":{},\"hand_trace\":{},\"expected\":{}}}",
+        json_str(&script),
+        json_str(&by_hand),
+        json_str(&observed),
+        json_str(&hand),
+        json_str(&expected)
+    );
+    w.count("origin:pending");
+    w.push(&term, &json, &[], Some(format!("pending|{value}|{tail}")));
+}
+
+fn pending_stream(w: &mut CasesWriter) {
+    let ok = "exit=0 panic=false deadlock=false timeout=false";
+    // (value of m, text behind `m` on its line, expected trace)
+    let e1 = format!("x:0:[\"1\"];b:0:[\"c\"];z:0:[\"w\"];w:0:[];{ok}");
+    emit_pending(w, "x 1\nunalias b\nb c", "", None);
+    // `b` is removed by the second line of the value: the third line's `b` is a command
+    emit_pending(w, "x 1\nunalias b\nb c", " ", None);
+    // on one line the whole line is parsed before `unalias` runs
+    emit_pending(w, "x 1\nunalias b; b c", "", None);
+    emit_pending(w, "alias b=y\nb c", "", None);
+    emit_pending(w, "alias b='y '\nb c", " c", None);
+    emit_pending(w, "unalias -a\nb c\nm\nc", "", None);
+    emit_pending(w, "x\nunalias -a\nalias c=y\nb c", " c", None);
+    emit_pending(w, "alias d='x 2 '\nd c", "", None);
+    emit_pending(w, "b 1\nalias b='w '\nb c\nunalias b\nb c", "", None);
+    emit_pending(w, "x \\\n1\nunalias b\nb \\\nc", "", None);
+    emit_pending(w, "x 1\nunalias c\nb c; alias c=y\nb c", " c", None);
+    emit_pending(w, "if x; then\nunalias b\nfi\nb c", "", None);
+    emit_pending(w, "{ unalias b\nb c; }\nb c", "", None);
+    emit_pending(w, "x 1 |\nunalias b\nb c", "", None);
+    // with literal expectations
+    emit_pending(w, "x 1\nunalias b\nb c", "", Some(&e1.replace("z:0:[\"w\"];w:0:[];", "b:0:[\"c\"];w:0:[];")));
+    let e2 = format!("x:0:[\"1\"];z:0:[\"w\"];z:0:[\"w\"];w:0:[];{ok}");
+    emit_pending(w, "x 1\nb c", "", Some(&e2));
+    let e3 = format!("y:0:[\"c\"];y:0:[\"c\"];w:0:[];{ok}");
+    emit_pending(w, "alias b=y\nb c", "", Some(&e3));
+}
+
 fn corpus() -> Vec<Case> {
     let t = |l: &[(&str, &str, bool)]| -> Vec<AliasDef> {
         l.iter().map(|(n, v, g)| AliasDef { name: n.to_string(), value: v.to_string(), global: *g }).collect()
@@ -948,6 +1022,12 @@ fn corpus() -> Vec<Case> {
         // and-or lists, pipelines, negation, subshells, groups: every command start is a command position
         c(t(&[("a", "x", false)]), "a && a || a | a; ! a & ( a; a ) | { a; a; }\na &&\na |\n\na\n"),
         c(t(&[("a", "x", false)]), "if a; then a; elif a; then a; else a; fi; while false; do a; done; until true; do a; done\n"),
+        // comments in and behind replacement text; `#` inside a word is literal
+        c(t(&[("a", "x # c", false), ("b", "y", false)]), "a b\nb\n"),
+        c(t(&[("a", "# c ", false), ("b", "y", false)]), "a b\nb a b\n"),
+        c(t(&[("a", "x ", false), ("b", "y", false)]), "a # b\na#b b; a b#a b # a\n"),
+        c(t(&[("a", "x#b ", false), ("b", "#", true), ("c", "z", false)]), "a c b c\nc\n"),
+        c(t(&[("a", "b #c\nc", false), ("b", "x ", false), ("c", "z", false)]), "a c\n"),
         // syntax errors
         c(t(&[("a", "if", false)]), "a x\n"),
         c(t(&[("a", "x )", false)]), "a y\n"),
@@ -1003,6 +1083,7 @@ fn real_main() {
         emit(&mut w, &c);
     }
     nested_stream(&mut w);
+    pending_stream(&mut w);
 
     // bounded-exhaustive: all tables over a, b, c with values from EXH_VALUES
     if args.thorough() {
